@@ -7,7 +7,7 @@ value.  Not decided: serde/HashMap behaviour (trusted)."""
 import re
 
 from engine.mir import E, apath, strip_refs, is_const, const_val, callee_name, self_path
-from engine.analyses import (leaf_assign, switches_on, chain, format_parts, truth_table,
+from engine.analyses import (leaf_assign, switches_on, chain, format_parts, truth_table, contains_call,
                              enumerate_paths, path_return, direct_writes, ModSets, guards_of)
 from engine.report import site_of
 from engine import tables
@@ -50,23 +50,10 @@ def run(ctx):
     r1 = chk.rule("C04.R1", "key→entry-name table agrees with riti.h names, the bundled layout and the header",
                   "pressing a key appends exactly the string the layout assigns to that key; keys outside the layout change nothing")
     fnk, rows, default = common.layout_table(prog)
-    body = prog.body(fnk)
+    from . import roles
+    keyed, numpad = common.layout_helpers(prog)
+    body = roles.ib(prog, fnk, extra_stop=[x for x in (keyed, numpad) if x])
     layout = tables.load_json("Probhat.json")["layout"]
-    callee_kinds = {}
-    for v, row in rows.items():
-        if "callee" in row:
-            callee_kinds.setdefault(row["callee"], []).append(v)
-    # identify helpers by signature
-    keyed, numpad = None, None
-    for c in callee_kinds:
-        f = prog.fns.get(c)
-        if not f:
-            continue
-        ins = f.get("inputs") or []
-        if len(ins) == 3 and ins[2] == "bool":
-            numpad = c
-        elif len(ins) == 3:
-            keyed = c
     used_literals = {}
     for v, row in sorted(rows.items()):
         names = by_val.get(v, [])
@@ -190,33 +177,43 @@ def run(ctx):
         b = prog.body(disp[0])
         adt = [a for p, a in prog.adts.items() if p.endswith("LayoutModifiers")]
         vnames = [v["name"] for v in adt[0]["variants"]] if adt else []
-        sw = switches_on(b, lambda e: e.k == "discr")
-        if len(sw) != 1 or not vnames:
-            r2.undecidable("display", "Display body is not one match on the variant")
+        from engine.analyses import sym_paths, PathLimit
+        try:
+            dpaths = sym_paths(b, 0, 200)
+        except PathLimit:
+            dpaths = None
+        if dpaths is None or not vnames:
+            r2.undecidable("display", "Display body cannot be enumerated")
         else:
-            bb, t = sw[0]
-            for (node, vals, tgt) in b.switch_edges(bb):
-                if vals == "otherwise":
-                    continue
-                ch = chain(b, tgt)
+            seen_v = {}
+            for path, env, conds in dpaths:
+                vsel = None
+                for (d, vals, allv, ty, bbx) in conds:
+                    if strip_refs(d).k == "discr":
+                        if vals != "otherwise" and len(vals) == 1:
+                            vsel = vnames[vals[0]]
+                        elif vals == "otherwise":
+                            rest = [n for i, n in enumerate(vnames) if i not in allv]
+                            vsel = rest[0] if len(rest) == 1 else None
                 lits = []
-                for cb in ch:
-                    tt = b.blocks[cb]["term"]
+                for (pb, _) in path:
+                    tt = b.blocks[pb]["term"]
                     if tt["k"] == "call":
                         for a in tt["args"]:
-                            e = strip_refs(b.expr_operand(a))
+                            e = strip_refs(b.expr_operand(a, 0, env))
                             fp = format_parts(b, e)
                             if fp:
                                 lits.append("".join(x[1] if x[0] == "lit" else "{}" for x in fp))
                             elif is_const(e, "str"):
                                 lits.append(const_val(e))
-                for v in vals:
-                    vn = vnames[v]
-                    if lits and lits[-1] == vn and all(l == vn for l in lits):
-                        r2.ok("display:%s" % vn, "%s renders as %r" % (vn, vn))
-                    else:
-                        r2.violation("display:%s" % vn, "plane %s renders as %r (layout entries are Key_<name>_%s)" % (vn, lits, vn),
-                                     site_of(b, tgt))
+                if vsel:
+                    seen_v.setdefault(vsel, []).extend(lits)
+            for vn in vnames:
+                lits = seen_v.get(vn, [])
+                if lits and all(l == vn for l in lits):
+                    r2.ok("display:%s" % vn, "%s renders as %r" % (vn, vn))
+                else:
+                    r2.violation("display:%s" % vn, "plane %s renders as %r (layout entries are Key_<name>_%s)" % (vn, lits, vn), common.fn_line(prog, disp[0]))
     # lookup key format in the keyed helper
     if keyed:
         b = prog.body(keyed)
@@ -244,24 +241,29 @@ def run(ctx):
     if len(gm) != 1:
         r2.undecidable("decode", "modifier decoder fn(u8)->(bool,bool) not found uniquely")
     else:
-        b = prog.body(gm[0])
-        ret = b.expr_local(0)
-        okd = False
-        if ret.k == "agg" and ret.a[0] == "tuple" and len(ret.a[1]) == 2:
-            okd = True
+        from engine.analyses import PredEval
+        pe = PredEval(prog)
+        bad = {0: None, 1: None}
+        undec = False
+        for m in range(256):
+            r = pe.call(gm[0], [m])
+            if not (isinstance(r, tuple) and r[0] == "tuple" and len(r[1]) == 2 and all(isinstance(x, bool) for x in r[1])):
+                undec = True
+                break
             for idx, cname in ((0, "MODIFIER_SHIFT"), (1, "MODIFIER_ALT_GR")):
-                e = strip_refs(ret.a[1][idx])
-                want = defines.get(cname)
-                good = (e.k == "bin" and e.a[0] == "Eq" and is_const(e.a[2], "int", want)
-                        and e.a[1].k == "bin" and e.a[1].a[0] == "BitAnd" and e.a[1].a[1].k == "arg"
-                        and is_const(e.a[1].a[2], "int", want))
-                if good:
-                    r2.ok("decode:%d" % idx, "field %d = (m & %d) == %d (%s of riti.h)" % (idx, want, want, cname))
+                want = bool(m & defines.get(cname, 0))
+                if r[1][idx] != want and bad[idx] is None:
+                    bad[idx] = (m, r[1][idx], want)
+        if undec:
+            r2.undecidable("decode", "cannot evaluate the modifier decoder over the 256 modifier bytes from its MIR", common.fn_line(prog, gm[0]))
+        else:
+            for idx, cname in ((0, "MODIFIER_SHIFT"), (1, "MODIFIER_ALT_GR")):
+                if bad[idx] is None:
+                    r2.ok("decode:%d" % idx, "field %d = (m & %s) != 0 for all 256 modifier bytes (%s = %d in riti.h)" % (idx, cname, cname, defines.get(cname, 0)))
                 else:
-                    r2.violation("decode:%d" % idx, "tuple field %d is %r, expected (modifier & %s) == %s with %s = %s from riti.h"
-                                 % (idx, e, cname, cname, cname, want), common.fn_line(prog, gm[0]))
-        if not okd:
-            r2.undecidable("decode", "decoder does not return a 2-tuple aggregate: %r" % (ret,))
+                    m, got, want = bad[idx]
+                    r2.violation("decode:%d" % idx, "for modifier byte %#04x the decoder reports %s = %s, riti.h's bit says %s"
+                                 % (m, "AltGr" if idx else "Shift", got, want), common.fn_line(prog, gm[0]))
     # plumbing in the fixed key handler
     fixed_ty = [t for t in prog.method_structs() if "Fixed" in t or True]
     handler = None
@@ -307,7 +309,13 @@ def run(ctx):
         if e.k == "call" and e.a[0].endswith("::cloned"):
             e = e.a[1][0]
         if not (e.k == "call" and "Option" in e.a[0] and e.a[0].endswith("::filter")):
-            r3.undecidable(key, "helper result is not Option::filter(..).cloned(): %r" % (ret,), common.fn_line(prog, helper))
+            verdict = _explicit_filter(prog, helper, is_np)
+            if verdict is True:
+                r3.ok(key, "keeps a value iff %s (explicit match form)" % ("numpad option ∧ ¬empty" if is_np else "¬empty"))
+            elif verdict is None:
+                r3.undecidable(key, "helper is neither Option::filter(..).cloned() nor an explicit match whose paths can be classified: %r" % (ret,), common.fn_line(prog, helper))
+            else:
+                r3.violation(key, verdict, common.fn_line(prog, helper))
             continue
         clo = e.a[1][1]
         if not (clo.k == "agg" and clo.a[0].startswith("closure:")):
@@ -387,3 +395,57 @@ def run(ctx):
                 else:
                     r3.ok("frame", "no write to the method's state on the no-value path (%d blocks)" % len(region))
     r3.floor(3, "two filter closures + frame rule")
+
+
+def _explicit_filter(prog, helper, is_np):
+    """Explicit-match form of the helpers: every path returning a value must have seen get()==Some ∧ ¬is_empty (∧ numpad);
+    every path returning None must have seen one of them fail.  Returns True | None (unknown shape) | message."""
+    from engine.analyses import sym_paths, PathLimit, bool_of
+    b = prog.body(helper)
+    try:
+        paths = sym_paths(b, 0, 400)
+    except PathLimit:
+        return None
+    for path, env, conds in paths:
+        got = empty = numpad = None
+        for (d, vals, allv, ty, bbx) in conds:
+            ds = strip_refs(d)
+            neg = False
+            while ds.k == "un" and ds.a[0] == "Not":
+                ds = strip_refs(ds.a[1])
+                neg = not neg
+            if ds.k == "discr" and contains_call(ds, lambda n: n.endswith("HashMap::<K, V, S, A>::get")) is not None:
+                if vals == (1,):
+                    got = True
+                elif vals == (0,) or vals == "otherwise":
+                    got = False
+                continue
+            bv = bool_of((ds, vals, allv, ty)) if ty == "bool" else None
+            if bv is not None and neg:
+                bv = not bv
+            if ds.k == "call" and ds.a[0].endswith("::is_empty") and bv is not None:
+                empty = bv
+                continue
+            if ds.k == "arg" and ds.a[0] == 3 and bv is not None and is_np:
+                numpad = bv
+                continue
+            return None
+        ret = strip_refs(env.get(0)) if env.get(0) is not None else None
+        if ret is None:
+            return None
+        if ret.k == "agg" and str(ret.a[0]).endswith("Option::None"):
+            kind = "none"
+        elif (ret.k == "agg" and str(ret.a[0]).endswith("Option::Some")) or (ret.k == "call" and (ret.a[0].endswith("::cloned") or ret.a[0].endswith("::clone"))):
+            kind = "value"
+            if contains_call(ret, lambda n: n.endswith("HashMap::<K, V, S, A>::get")) is None:
+                return "the returned value is %r, not the layout's entry" % (ret,)
+        else:
+            return None
+        if kind == "value":
+            if not (got is True and empty is False and (numpad is True or not is_np)):
+                return "a value is returned on a path with entry-present=%s, empty=%s%s" % (got, empty, ", numpad=%s" % numpad if is_np else "")
+        else:
+            if not (got is False or empty is True or (is_np and numpad is False)):
+                return "no value is returned although the entry is present and non-empty%s (conditions: present=%s empty=%s%s)" % (
+                    " and the numpad option is on" if is_np else "", got, empty, ", numpad=%s" % numpad if is_np else "")
+    return True
